@@ -32,9 +32,16 @@ pub fn generate(g: &mut G, _index: u64) -> Scenario {
     let two_topics = g.chance(1, 3);
     let topic = |g: &mut G| if two_topics && g.chance(1, 2) { 2u8 } else { 1u8 };
     let nsubs = g.range(1, 4) as usize;
-    // subscriber actors; all unbounded (the fan-out then never suspends)
+    // subscriber actors; in two thirds of the programs all unbounded (the fan-out then never
+    // suspends), otherwise some have a bounded mailbox: the broker then waits in mid fan-out for
+    // a subscriber that is behind, and the deliveries must stay exactly-once and in one order
+    let some_bounded = g.chance(1, 3);
     for _ in 0..nsubs {
         let mut spec = ActorSpec { entry: Entry::Spawn, ..Default::default() };
+        if some_bounded && g.chance(1, 2) {
+            spec.entry = Entry::BuilderSpawn;
+            spec.mailbox = Some(g.below(3) as usize);
+        }
         if g.chance(1, 2) {
             spec.on_start.push(Work::Subscribe(topic(g)));
             if g.chance(1, 5) {
